@@ -53,3 +53,44 @@ pub open spec fn castle_moves_rule(v: Pos, s: u32, d: u32, p: u64) -> bool {
         || (d == s + 2 && me.ks && !bit_set(occ, (s + 1) as u32) && !bit_set(occ, (s + 2) as u32)
             && !sq_attacked(op, oc, occ, s) && !sq_attacked(op, oc, occ, (s + 1) as u32) && !sq_attacked(op, oc, occ, (s + 2) as u32)))
 }
+
+/// the nine kinds of pseudo-legal moves (index = order in which the generator emits them); `nq` = captures and promotions only
+pub open spec fn gen_part(v: Pos, k: int, nq: bool, s: u32, d: u32, p: u64) -> bool {
+    if k == 0 { slide_moves(v, 5, true, s, d, p) && (!nq || is_capture_at(v, d)) }          // queen along ranks and files
+    else if k == 1 { slide_moves(v, 5, false, s, d, p) && (!nq || is_capture_at(v, d)) }    // queen along diagonals
+    else if k == 2 { slide_moves(v, 3, false, s, d, p) && (!nq || is_capture_at(v, d)) }    // bishop
+    else if k == 3 { slide_moves(v, 4, true, s, d, p) && (!nq || is_capture_at(v, d)) }     // rook
+    else if k == 4 { step_moves(v, 2, s, d, p) && (!nq || is_capture_at(v, d)) }            // knight
+    else if k == 5 { step_moves(v, 6, s, d, p) && (!nq || is_capture_at(v, d)) }            // king step
+    else if k == 6 { pawn_capture_moves(v, s, d, p) }                                       // pawn captures, e.p., capturing promotions
+    else if k == 7 { pawn_push_moves(v, s, d, p) && (!nq || p != 0) }                       // pawn pushes, pushing promotions
+    else if k == 8 { castle_moves_rule(v, s, d, p) && !nq }                                 // castling
+    else { false }
+}
+pub open spec fn gen_upto(v: Pos, k: int, nq: bool, s: u32, d: u32, p: u64) -> bool {
+    (k >= 0 && gen_part(v, 0, nq, s, d, p)) || (k >= 1 && gen_part(v, 1, nq, s, d, p)) || (k >= 2 && gen_part(v, 2, nq, s, d, p))
+    || (k >= 3 && gen_part(v, 3, nq, s, d, p)) || (k >= 4 && gen_part(v, 4, nq, s, d, p)) || (k >= 5 && gen_part(v, 5, nq, s, d, p))
+    || (k >= 6 && gen_part(v, 6, nq, s, d, p)) || (k >= 7 && gen_part(v, 7, nq, s, d, p)) || (k >= 8 && gen_part(v, 8, nq, s, d, p))
+}
+/// THE RULES: (s, d, p) is a pseudo-legal move of v — a move of a piece of the side to move that obeys the piece's
+/// movement rules, ignoring only whether it leaves the own king attacked
+pub open spec fn pseudo_legal(v: Pos, s: u32, d: u32, p: u64) -> bool { gen_upto(v, 8, false, s, d, p) }
+/// the move captures something (en passant included)
+pub open spec fn captures_something(v: Pos, s: u32, d: u32) -> bool {
+    is_capture_at(v, d) || is_ep_rule(v, piece_at(side(v, v.turn), sqm(s)), s, d)
+}
+
+// responsibilities as named closure-valued spec functions (equal arguments => equal closures)
+pub open spec fn resp_slide(v: Pos, piece: u64, rook_like: bool, nq: bool) -> spec_fn(u32, u32, u64) -> bool {
+    |s: u32, d: u32, p: u64| slide_moves(v, piece, rook_like, s, d, p) && (!nq || is_capture_at(v, d))
+}
+pub open spec fn resp_step(v: Pos, piece: u64, nq: bool) -> spec_fn(u32, u32, u64) -> bool {
+    |s: u32, d: u32, p: u64| step_moves(v, piece, s, d, p) && (!nq || is_capture_at(v, d))
+}
+pub open spec fn resp_pawn_capture(v: Pos) -> spec_fn(u32, u32, u64) -> bool { |s: u32, d: u32, p: u64| pawn_capture_moves(v, s, d, p) }
+pub open spec fn resp_pawn_push(v: Pos, nq: bool) -> spec_fn(u32, u32, u64) -> bool { |s: u32, d: u32, p: u64| pawn_push_moves(v, s, d, p) && (!nq || p != 0) }
+pub open spec fn resp_castle(v: Pos) -> spec_fn(u32, u32, u64) -> bool { |s: u32, d: u32, p: u64| castle_moves_rule(v, s, d, p) }
+pub open spec fn resp_pseudo_legal(v: Pos) -> spec_fn(u32, u32, u64) -> bool { |s: u32, d: u32, p: u64| pseudo_legal(v, s, d, p) }
+pub open spec fn resp_non_quiet(v: Pos) -> spec_fn(u32, u32, u64) -> bool {
+    |s: u32, d: u32, p: u64| pseudo_legal(v, s, d, p) && (captures_something(v, s, d) || p != 0)
+}
